@@ -591,9 +591,26 @@ Proof.
   pose proof (W_app _ _ _ HW) as HW1. change (blen [60; 63]) with 2 in HW1.
   rewrite consume_name_st; [|exact HW1|exact Hn|exact Hst1]. cbn [bind].
   pose proof (W_app _ _ _ HW1) as HW2.
-  rewrite skip_spaces_st; [|exact HW2|apply ws_spaces; exact Hs|exact Hst2].
-  pose proof (W_app _ _ _ HW2) as HW3.
   change (b "?>") with [63; 62].
+  assert (Hsp : (if starts_with (st (p + 2 + blen target) (sep ++ value ++ [63; 62] ++ post)) [63; 62]
+                 then Ok (st (p + 2 + blen target) (sep ++ value ++ [63; 62] ++ post))
+                 else consume_spaces text (st (p + 2 + blen target) (sep ++ value ++ [63; 62] ++ post)))
+                = Ok (st (p + 2 + blen target + blen sep) (value ++ [63; 62] ++ post))).
+  { rewrite starts_with_st by exact HW2. destruct sep as [|w sep'].
+    - destruct value as [|x v]; [|destruct Hfirst as [_ Hf]; congruence].
+      cbn [app prefix_b]. rewrite blen_nil, N.add_0_r. reflexivity.
+    - assert (Hw : Cst.is_ws w = true).
+      { cbn [Cst.wf_ws forallb] in Hs. apply andb_true_iff in Hs. apply Hs. }
+      replace (prefix_b [63; 62] ((w :: sep') ++ value ++ [63; 62] ++ post)) with false.
+      2:{ cbn [app prefix_b]. destruct (63 =? w) eqn:E63; [|reflexivity].
+          apply N.eqb_eq in E63. subst w. discriminate. }
+      unfold consume_spaces. cbn [app]. rewrite at_end_st by exact HW2.
+      unfold starts_with_space. rewrite curr_byte_opt_st by exact HW2.
+      rewrite (ws_space _ Hw). cbn [negb].
+      f_equal. apply (skip_spaces_st (p + 2 + blen target) (w :: sep') (value ++ [63; 62] ++ post));
+        [exact HW2|apply ws_spaces; exact Hs|exact Hst2]. }
+  rewrite Hsp. cbn [bind]. clear Hsp.
+  pose proof (W_app _ _ _ HW2) as HW3.
   change (fun (s : stream) (ch : N) => negb ((ch =? 63) && starts_with s [63; 62])) with pi_f.
   rewrite consume_chars_st; [|exact HW3|apply pi_walk; assumption|].
   2:{ cbn [walk_stop app]. split; [reflexivity|]. unfold pi_f.
